@@ -43,7 +43,8 @@ func rulesC10(r *Run) {
 	ruleRecoverRunsPlans(r, "R1")
 	ruleRunPlanEntry(r, "R1")
 	ruleRecoverMachine(r, "R1")
-	r.Expect("R1", 8)
+	ruleNoVaultCallInStreamLoop(r, "R1")
+	r.Expect("R1", 9)
 
 	r.Kind("R2", "K7")
 	ruleRecoveryTerminal(r, "R2")
@@ -80,7 +81,9 @@ func rulesC10(r *Run) {
 	ruleEndWritesChildrenFirst(r, "R3")
 	ruleRepairThenClassifyAll(r, "R3")
 	ruleFixVerdictStickyAll(r, "R3")
-	r.Expect("R3", 37)
+	ruleFailedGroupNotPassed(r, "R3", smKey("BlockPostChecks"), "PostChecks")
+	ruleFailedGroupNotPassed(r, "R3", smKey("BlockDeferredChecks"), "DeferredChecks")
+	r.Expect("R3", 39)
 
 	r.Kind("R4", "K1+K3")
 	ruleRecoveryDeferred(r, "R4", m)
@@ -1889,4 +1892,204 @@ func ruleEndWritesChildrenFirst(r *Run, rule string) {
 		pos = fn.Decl.Pos()
 	}
 	r.Check(rule, "End:final-state-written-children-first", pos, msg == "", "%s", orOK(msg, "the plan is written after everything it contains"))
+}
+
+// ruleNoVaultCallInStreamLoop (round-3 seed C10-6): the engine never calls the vault while it is still consuming a
+// result stream of the same vault. The sqlite vault has one connection, which the producer of a Search/List stream
+// holds until the stream is drained; a Read from inside the consuming loop waits for that connection while the
+// producer waits for the consumer: with more results than the stream buffers, start-up recovery hangs for ever.
+// One obligation per loop that ranges over a chan storage.Stream[…] in the engine and API packages; reported is a
+// call in the loop body (directly or through repository functions) that reaches a method of package storage.
+func ruleNoVaultCallInStreamLoop(r *Run, rule string) {
+	g := r.P.CallGraph()
+	n := 0
+	for _, fn := range r.P.sortedFuncs() {
+		rel := relPkg(fn.Pkg.PkgPath)
+		if fn.Decl.Body == nil || (rel != "" && rel != pkgExec) {
+			continue
+		}
+		if strings.HasSuffix(r.P.Fset.Position(fn.Decl.Pos()).Filename, "_test.go") {
+			continue
+		}
+		info := fn.Pkg.TypesInfo
+		ast.Inspect(fn.Decl.Body, func(x ast.Node) bool {
+			rs, ok := x.(*ast.RangeStmt)
+			if !ok {
+				return true
+			}
+			tv, ok := info.Types[rs.X]
+			if !ok {
+				return true
+			}
+			ch, isCh := tv.Type.Underlying().(*types.Chan)
+			if !isCh || !strings.HasPrefix(ShortType(ch.Elem()), "storage.Stream") {
+				return true
+			}
+			n++
+			r.Funcs[fn.Key] = true
+			bad := ""
+			var bpos token.Pos = rs.Pos()
+			ast.Inspect(rs.Body, func(y ast.Node) bool {
+				c, ok := y.(*ast.CallExpr)
+				if !ok || bad != "" {
+					return true
+				}
+				f, ok := calleeFunc(info, c)
+				if !ok {
+					return true
+				}
+				k := FuncKey(f)
+				if strings.HasPrefix(k, "workflow/storage.") {
+					bad, bpos = "the loop that consumes a vault result stream calls "+ShortFn(k)+" before the stream is drained", c.Pos()
+					return true
+				}
+				if r.P.Funcs[k] != nil {
+					reach := g.Reach([]string{k}, func(e CallEdge) bool { return r.P.Funcs[e.Callee] != nil || strings.HasPrefix(e.Callee, "workflow/storage.") })
+					for t := range reach {
+						if strings.HasPrefix(t, "workflow/storage.") && bad == "" {
+							bad, bpos = "the loop that consumes a vault result stream calls "+ShortFn(k)+", which reaches "+ShortFn(t)+", before the stream is drained", c.Pos()
+						}
+					}
+				}
+				return true
+			})
+			if bad != "" {
+				bad += ": the producer of the stream holds the vault's only connection (sqlite) until the stream is drained, so with more results than the stream buffers both sides wait for each other — recovery at start-up never finishes"
+			}
+			r.Check(rule, "stream-drained-before-vault-call:"+ShortFn(fn.Key), bpos, bad == "", "%s", orOK(bad, "nothing in the loop body reaches the vault"))
+			return true
+		})
+	}
+	if n == 0 {
+		r.Unresolved(rule, "a loop consuming a vault result stream")
+	}
+}
+
+// ruleRunContextDetached (round-3 seed C01-6): the context a plan executes under is detached from the context of the
+// caller of Start. Check groups are launched with Group.Go(req.Ctx, …), which runs nothing when that context is
+// already done while Wait still answers nil, so under a caller-cancellable context a cancelled (or timed-out) Start
+// context makes every later check group "pass" without having run, and the sequences — launched under
+// WithoutCancel — still execute. Decided on runPlan: the Ctx of the statemachine.Request it builds is, through
+// local definitions, context.WithCancel(context.WithoutCancel(…)) (or WithoutCancel directly).
+func ruleRunContextDetached(r *Run, rule string) {
+	fn := r.fnByKey(rule, pkgExec+".Plans.runPlan")
+	if fn == nil {
+		return
+	}
+	info := fn.Pkg.TypesInfo
+	var ctxExpr ast.Expr
+	ast.Inspect(fn.Decl.Body, func(x ast.Node) bool {
+		cl, ok := x.(*ast.CompositeLit)
+		if !ok || ctxExpr != nil {
+			return true
+		}
+		if tv, ok := info.Types[cl]; !ok || !isRequestType(tv.Type) {
+			return true
+		}
+		if v := keyValue(cl, "Ctx"); v != nil {
+			ctxExpr = v
+		}
+		return true
+	})
+	if ctxExpr == nil {
+		// the body of the submitted literal may have been moved into a helper: find the literal there and map its Ctx
+		// back to the argument runPlan passes
+		ast.Inspect(fn.Decl.Body, func(x ast.Node) bool {
+			c, ok := x.(*ast.CallExpr)
+			if !ok || ctxExpr != nil {
+				return true
+			}
+			f, ok := calleeFunc(info, c)
+			if !ok {
+				return true
+			}
+			h := r.P.Funcs[FuncKey(f)]
+			if h == nil || h.Decl.Body == nil || h.Pkg != fn.Pkg {
+				return true
+			}
+			var inner ast.Expr
+			ast.Inspect(h.Decl.Body, func(y ast.Node) bool {
+				cl, ok := y.(*ast.CompositeLit)
+				if ok && inner == nil {
+					if tv, ok := info.Types[cl]; ok && isRequestType(tv.Type) {
+						inner = keyValue(cl, "Ctx")
+					}
+				}
+				return inner == nil
+			})
+			if inner == nil {
+				return true
+			}
+			po := ObjOf(info, inner)
+			idx := 0
+			for _, fld := range h.Decl.Type.Params.List {
+				for _, nm := range fld.Names {
+					if info.ObjectOf(nm) == po && po != nil && idx < len(c.Args) {
+						ctxExpr = c.Args[idx]
+					}
+					idx++
+				}
+			}
+			return true
+		})
+	}
+	if ctxExpr == nil {
+		r.Unresolved(rule, "runPlan builds a statemachine.Request with a Ctx")
+		return
+	}
+	isCtxCall := func(e ast.Expr, name string) (*ast.CallExpr, bool) {
+		c, ok := ast.Unparen(e).(*ast.CallExpr)
+		if !ok {
+			return nil, false
+		}
+		f, ok := calleeFunc(info, c)
+		if !ok {
+			return nil, false
+		}
+		k := FuncKey(f)
+		return c, strings.HasSuffix(k, "context."+name)
+	}
+	// resolve through single local definitions
+	def := func(e ast.Expr) ast.Expr {
+		for d := 0; d < 4; d++ {
+			o := ObjOf(info, e)
+			if o == nil {
+				return e
+			}
+			var rhs ast.Expr
+			cnt := 0
+			ast.Inspect(fn.Decl.Body, func(x ast.Node) bool {
+				as, ok := x.(*ast.AssignStmt)
+				if !ok {
+					return true
+				}
+				for i, l := range as.Lhs {
+					if ObjOf(info, l) == o {
+						cnt++
+						if len(as.Rhs) == len(as.Lhs) {
+							rhs = as.Rhs[i]
+						} else if len(as.Rhs) == 1 {
+							rhs = as.Rhs[0]
+						}
+					}
+				}
+				return true
+			})
+			if cnt != 1 || rhs == nil {
+				return e
+			}
+			e = rhs
+		}
+		return e
+	}
+	e := def(ctxExpr)
+	detached := false
+	if c, ok := isCtxCall(e, "WithCancel"); ok && len(c.Args) == 1 {
+		e = def(c.Args[0])
+	}
+	if _, ok := isCtxCall(e, "WithoutCancel"); ok {
+		detached = true
+	}
+	r.Check(rule, "runPlan:plan-context-detached-from-caller", ctxExpr.Pos(), detached,
+		"the plan executes under %s, which is not derived from context.WithoutCancel: when the caller of Start cancels its context (or it times out) the check groups launched with Group.Go(req.Ctx, …) silently do not run and count as passed, while the sequences still execute", ExprStr(def(ctxExpr)))
 }
